@@ -18,6 +18,9 @@ RULE = ("captions of 1-3 lines whose text is cut into pieces, with 0-4 flat (non
         "(readers) STYLE nodes of every caption any reader returns for the repository corpus and "
         "for generated documents match like brackets. Non-trivial: at least one non-empty span "
         "that does not cover the whole caption. "
+        "(dfxp-merged) runs of concurrent captions written by the single-position / legacy DFXP writers: "
+        "italic characters of the merged paragraph. (webvtt-layouts) captions positioned in two places with spans touching the change of "
+        "position: tags balanced inside every cue and flags equal. "
         "(scc-rollup) roll-up and paint-on streams of the C16 generator with mid-row italics, read with "
         "and without simulate_roll_up: balanced style nodes. "
         "(webvtt-classes) spans and captions that are italic / bold / underlined through named "
@@ -26,7 +29,7 @@ RULE = ("captions of 1-3 lines whose text is cut into pieces, with 0-4 flat (non
         "a fresh WebVTTWriter or one that wrote - or failed to write - a set in which the same "
         "names mean other styles; reference resolution: classes in list order, own keys last.")
 ASSUMPTIONS = [
-    "spans are flat and balanced on the input side; nodes carry no layouts",
+    "spans are flat and balanced on the input side; nodes carry no layouts except in the webvtt-layouts leg, where each span lies within nodes of one layout",
     "DFXP carries italics only (bold / underline are judged for SAMI and WebVTT targets)",
 ]
 
@@ -299,6 +302,125 @@ def check_scc(case, rec):
         rec.label("has-italics")
 
 
+# ------------------------------------------------------------------ concurrent captions merged by the extras writers
+
+def merged_strategy(tier):
+    """Two or three captions with identical times (the legacy / single-position DFXP writers merge
+    them into one paragraph); spans may end where one caption ends and start where the next begins."""
+    @st.composite
+    def build(draw):
+        caps = []
+        for ci in range(draw(st.integers(2, 3))):
+            nodes = []
+            for k in range(draw(st.integers(1, 2))):
+                keys = draw(st.lists(st.sampled_from(KEYS), min_size=0, max_size=2, unique=True))
+                c = {key: True for key in sorted(keys)}
+                if c:
+                    nodes.append({"s": True, "c": c})
+                nodes.append({"t": f"m{ci}{k}"})
+                if c:
+                    nodes.append({"s": False, "c": c})
+            caps.append({"start": 2000000, "end": 3500000, "nodes": nodes, "style": {}, "layout": None})
+        return {"set": {"langs": [{"code": "en-US", "layout": None, "cues": caps}], "styles": {}, "layout": None},
+                "writer": draw(st.sampled_from(["single", "legacy"]))}
+    return build()
+
+
+def check_merged(case, rec):
+    from pycaption.dfxp.extras import LegacyDFXPWriter, SinglePositioningDFXPWriter
+    m = case["set"]
+    cues = m["langs"][0]["cues"]
+    exp = [x for c in cues for x in flags_model(c)]
+    wcls = SinglePositioningDFXPWriter if case["writer"] == "single" else LegacyDFXPWriter
+    with must(f"{wcls.__name__}.write"):
+        out = wcls().write(model.to_pycaption(m))
+    try:
+        P.parse_dfxp(out)
+    except P.RefParseError as e:
+        raise Violation(f"{case['writer']}: output markup not well-formed/balanced: {e}; {out[:500]!r}")
+    with must("DFXPReader.read"):
+        back = DFXPReader().read(out)
+    caps = back.get_captions(back.get_languages()[0])
+    require(len(caps) == 1, lambda: f"{case['writer']}: {len(caps)} paragraphs for one run of concurrent captions")
+    check_balanced_py(caps[0], "merged paragraph read back")
+    g = flags_py(caps[0])
+    require([c for c, _ in g] == [c for c, _ in exp], lambda: f"{case['writer']}: characters changed: {out[-600:]!r}")
+    for k, ((ch, gf), (_, ef)) in enumerate(zip(g, exp)):
+        require(gf[0] == ef[0], lambda: f"{case['writer']}: char #{k} {ch!r} italic={gf[0]}, authored {ef[0]}; nodes "
+                                        f"{[c['nodes'] for c in cues]}; output {out[-700:]!r}")
+    rec.nontrivial(True)
+    rec.label("merged:" + case["writer"])
+
+
+# ------------------------------------------------------------------ spans next to a change of position
+
+LAYOUT_A = {"origin": [[10, "%"], [10, "%"]], "extent": None, "padding": None, "align": ["left", "top"], "webvtt": None}
+LAYOUT_B = {"origin": [[20, "%"], [70, "%"]], "extent": [[60, "%"], [20, "%"]], "padding": None, "align": None, "webvtt": None}
+
+
+def layouts_strategy(tier):
+    """Captions whose text nodes are positioned in two places (WebVTT writes one cue per place);
+    each span lies within nodes of one layout and may touch the change of position."""
+    @st.composite
+    def build(draw):
+        cues = []
+        for ci in range(draw(st.integers(1, 3))):
+            nodes = []
+            for li, lay in enumerate(draw(st.sampled_from([[LAYOUT_A, LAYOUT_B], [LAYOUT_B, LAYOUT_A],
+                                                            [LAYOUT_A, LAYOUT_B, LAYOUT_A]]))):
+                if li and draw(st.booleans()):
+                    nodes.append({"br": 1, "layout": lay})
+                for k in range(draw(st.integers(1, 2))):
+                    keys = draw(st.lists(st.sampled_from(KEYS), min_size=0, max_size=2, unique=True))
+                    c = {key: True for key in sorted(keys)}
+                    if c:
+                        nodes.append({"s": True, "c": c, "layout": lay})
+                    nodes.append({"t": f"w{ci}{li}{k}", "layout": lay})
+                    if c:
+                        nodes.append({"s": False, "c": c, "layout": lay})
+            cues.append({"start": (ci + 1) * 2000000, "end": (ci + 1) * 2000000 + 1500000, "nodes": nodes,
+                         "style": {}, "layout": None})
+        return {"set": {"langs": [{"code": "en-US", "layout": None, "cues": cues}], "styles": {}, "layout": None}}
+    return build()
+
+
+def check_layouts(case, rec):
+    m = case["set"]
+    cues = m["langs"][0]["cues"]
+    cs = model.to_pycaption(m)
+    with must("WebVTTWriter.write"):
+        out = WebVTTWriter().write(cs)
+    try:
+        got = P.parse_webvtt(out)
+    except P.RefParseError as e:
+        raise Violation(f"webvtt output not well-formed: {e}")
+    tagmap = {"i": 0, "b": 1, "u": 2}
+    by_time = {}
+    for g in got:
+        try:
+            chars = P.vtt_styled_chars(g["lines"])      # balanced and nested within EACH cue
+        except P.RefParseError as e:
+            raise Violation(f"webvtt: tags not balanced inside one cue: {e}; payload {g['lines']!r}; output {out!r}")
+        gl = by_time.setdefault((g["start"], g["end"]), [])
+        for ch, open_tags in chars:
+            if not ch.isspace():
+                f = [False, False, False]
+                for t in open_tags:
+                    if t in tagmap:
+                        f[tagmap[t]] = True
+                gl.append((ch, tuple(f)))
+    require(len(by_time) == len(cues), lambda: f"webvtt: cues at {len(by_time)} distinct times for {len(cues)} captions")
+    for i, cue in enumerate(cues):
+        gl = by_time.get((cue["start"] // 1000 * 1000, cue["end"] // 1000 * 1000), [])
+        e = flags_model(cue)
+        require([c for c, _ in gl] == [c for c, _ in e], lambda: f"webvtt: caption {i} characters changed: {out!r}")
+        for k, ((ch, gf), (_, ef)) in enumerate(zip(gl, e)):
+            require(gf == ef, lambda: f"webvtt: caption {i} char #{k} {ch!r}: tags give {dict(zip(KEYS, gf))}, "
+                                      f"authored {dict(zip(KEYS, ef))}; output {out!r}")
+    rec.nontrivial(True)
+    rec.label("two-positions")
+
+
 def rollup_strategy(tier):
     from . import c16
     return st.tuples(c16.stream_strategy(tier), st.booleans()).map(lambda t: {"stream": t[0], "simulate": t[1]})
@@ -454,6 +576,8 @@ def subchecks(tier):
         Sub("roundtrip", check_roundtrip, strategy=set_strategy, examples=(3000, 100000), min_per_shard=100),
         Sub("webvtt", check_webvtt, strategy=set_strategy, examples=(6000, 200000), min_per_shard=300),
         Sub("corpus-readers", check_corpus, chunks=corpus_chunks, expand=corpus_expand, exhaustive=True),
+        Sub("dfxp-merged", check_merged, strategy=merged_strategy, examples=(2000, 60000), min_per_shard=100),
+        Sub("webvtt-layouts", check_layouts, strategy=layouts_strategy, examples=(3000, 80000), min_per_shard=200),
         Sub("scc-rollup", check_rollup, strategy=rollup_strategy, examples=(4000, 100000), min_per_shard=200),
         Sub("scc-readers", check_scc, strategy=scc_strategy, examples=(2500, 100000), min_per_shard=100),
         Sub("generated-readers", check_gen_docs, strategy=gen_docs_strategy, examples=(4000, 100000), min_per_shard=300),
